@@ -7,6 +7,8 @@ import PdshVerif.Exec.XrcmdSpec
 import PdshVerif.Opt.Rcmd
 import PdshVerif.Opt.RcmdSpec
 import PdshVerif.Gen.Modopt
+import PdshVerif.Opt.Exclude
+import PdshVerif.Hostlist.Probed
 import Driver.Util
 
 /-!
@@ -106,6 +108,62 @@ def regModel (re : Bool) (toks : List String) : String :=
     match (if re then Opt.Rcmd.runRe c.cfg c.words c.targets else Opt.Rcmd.run c.cfg c.words c.targets) with
     | .fatal => "fatal"
     | .lines ls => showLines ls
+
+/-! the same run computed FROM THE COMMAND LINE: the final target list is what C02's model of opt.c + hostlist.c
+    (`Opt.Exclude.cliFinal`: every -w / -x optarg as typed, split at commas, annotations stripped by
+    get_host_rcmd_type, pushed, exclusions applied, re-expanded) goes on with, and the names a word registers are
+    what the same model yields for that word alone -- no host expansion comes from the check any more.
+      regcli loaded=L env=S|~ R=S|~ l=S|~ luser=S E=w:OPTARG E=x:OPTARG ...   (E in command-line order) -/
+structure CliCase where
+  cfg : Opt.Rcmd.Cfg
+  evs : List Opt.Exclude.Ev
+
+def parseCli : List String → CliCase → Option CliCase
+  | [], c => some c
+  | tok :: rest, c =>
+    match tok.splitOn "=" with
+    | [k, v] =>
+      let c' : Option CliCase :=
+        if k = "loaded" then (parseList v).map fun l => { c with cfg := { c.cfg with loaded := l } }
+        else if k = "env" then (parseOpt v).map fun o => { c with cfg := { c.cfg with envType := o } }
+        else if k = "R" then (parseOpt v).map fun o => { c with cfg := { c.cfg with optR := o } }
+        else if k = "l" then (parseOpt v).map fun o => { c with cfg := { c.cfg with optL := o } }
+        else if k = "luser" then (Hex.decodeToChars v).map fun u => { c with cfg := { c.cfg with luser := u } }
+        else if k = "E" then
+          match v.splitOn ":" with
+          | ["w", a] => (Hex.decodeToChars a).map fun a => { c with evs := c.evs ++ [.w a] }
+          | ["x", a] => (Hex.decodeToChars a).map fun a => { c with evs := c.evs ++ [.x a] }
+          | _ => none
+        else none
+      match c' with
+      | some c' => parseCli rest c'
+      | none => none
+    | _ => none
+
+def regCli (toks : List String) : String :=
+  match parseCli toks ⟨⟨[], Gen.MO_RCMD_RANK_LIST.map String.toList, none, none, none, []⟩, []⟩ with
+  | none => "bad-op"
+  | some c =>
+    let hcfg : Hostlist.Cfg := { Hostlist.Cfg.probed with fixPushLoop := true, fix2Br := true }
+    let xenv : Opt.Exclude.Env := { files := [], rematch := fun _ _ => none, badre := fun _ => false }
+    -- the comma words of the -w options, in order, as wcoll_arg_process gets them
+    let wtexts := (c.evs.flatMap fun e => match e with | .w _ => Opt.Exclude.evWords e | .x _ => [])
+    let names (w : List Char) : Option (List (List Char)) :=
+      -- the word alone through the same path (get_host_rcmd_type strips the annotation exactly once)
+      match Opt.Exclude.cliFinal hcfg xenv [.w w] with
+      | .ok hs => some hs
+      | _ => none
+    match wtexts.mapM (fun w => (names w).map fun ns => (⟨w, ns, ns⟩ : Opt.Rcmd.Word)) with
+    | none => "fatal"
+    | some words =>
+      match Opt.Exclude.cliFinal hcfg xenv c.evs with
+      | .ok targets =>
+        match Opt.Rcmd.run c.cfg words targets with
+        | .fatal => "fatal"
+        | .lines ls => showLines ls
+      | .nohosts => "fatal"
+      | .fatal _ => "fatal"
+      | _ => "outside"
 
 /-- the specification says nothing about malformed words or unknown module names (the property is
     about runs that take place): `nodomain` -/
@@ -256,6 +314,7 @@ def stepModel (v : Variant) (re : Bool) (sshEsc : Bool) (line : String) : String
       | none => "ub"
     | _, _, _, _, _, _, _, _, _ => "bad-op"
   | "reg" :: rest => regModel re rest
+  | "regcli" :: rest => regCli rest
   | "xr" :: rest => xrModel rest
   | _ => "bad-op"
 
